@@ -3,7 +3,7 @@
 cd /verif
 declare -A EXTRA=( [C01-A]="C13" [C02-A]="C09" [C05-A]="C11" [C07-A]="C11" [C07-B]="C05" [C03-B]="C11" [C11-B]="C03" [C06-A]="C03" [C10-A]="C09" [C14-A]="" )
 for d in seeded/*/; do
-  s=$(basename $d)
+  s=$(basename $d); case $s in _*) continue;; esac
   p=${s%%-*}
   tools/seedrun.py $s $p ${EXTRA[$s]} 2>&1 | grep -E "^C[0-9]+ on" 
 done
